@@ -151,7 +151,7 @@ inductive Act where
   | udpOpen (op : POp)                                -- m_udp_associate.open(v4); bind(0.0.0.0:m_bind_port++); local_bound_to()
   | udpRecv (op : POp)                                -- async_receive_from(buffer(m_udp_buffer), m_udp_from)
   | udpSend (payload : Bytes) (addr port : Nat)       -- m_udp_associate.send_to (error ignored)
-  | udpResolve (host : Bytes) (port : Nat) (op : POp)
+  | udpResolve (host : Bytes) (port : Nat) (op : POp)      -- m_udp_resolver.async_resolve(host.c_str(), …): the name ends at its first NUL
   | closeClient | closeServer | closeBind | closeUdp
   deriving DecidableEq, Repr
 
